@@ -190,4 +190,175 @@ theorem modelpath_print_parse_model (mp : ModelPath) (h : isFQM mp.toName = true
 example : isFQM (ModelPath.toName ⟨sHttps, sDefaultHost, [117], [109], sLatest⟩) = true ∧
     ModelPath.shortTagname ⟨sHttps, sDefaultHost, [117], [109], sLatest⟩ = [117, 47, 109, 58] ++ sLatest := by decide
 
+/-! ## 14. ANY models directory: relative, with `.` / `..` / doubled or trailing slashes (`OLLAMA_MODELS` verbatim)
+
+  `envconfig.Models()` returns the configured string as it is.  The theorems of sections 4–9 take the models directory
+  as an absolute clean path `absPath rc`; here the root is an ARBITRARY non-empty byte string.  `filepath.Clean(root)` is
+  `renderPath rooted (rootStack root)`; every derived path is the rendering of that same stack followed by exactly the
+  fixed components — whatever `..` the root itself contains is resolved inside the root, never against the name parts. -/
+
+/-- how `filepath.Clean` renders a stack of components -/
+def renderPath (rooted : Bool) (comps : List Bytes) : Bytes :=
+  if rooted then cSlash :: joinWith cSlash comps
+  else if comps.isEmpty then sDot else joinWith cSlash comps
+
+def isRooted (root : Bytes) : Bool := root.head? == some cSlash
+
+/-- the component stack `filepath.Clean` computes for `root` -/
+def rootStack (root : Bytes) : List Bytes :=
+  ((splitOn cSlash root).foldl (cleanStep (isRooted root)) []).reverse
+
+theorem clean_eq_render (root : Bytes) (hne : root ≠ []) :
+    clean root = renderPath (isRooted root) (rootStack root) := by
+  have h : root.isEmpty = false := by simpa [List.isEmpty_iff] using hne
+  unfold clean renderPath rootStack isRooted
+  simp only [h, Bool.false_eq_true, if_false]
+
+theorem splitOn_append_sep (c : UInt8) (a b : Bytes) :
+    splitOn c (a ++ c :: b) = splitOn c a ++ splitOn c b := by
+  induction a with
+  | nil => simp [splitOn]
+  | cons x xs ih =>
+    by_cases hx : (x == c) = true
+    · simp [splitOn, hx, ih]
+    · have hx' : (x == c) = false := by simpa using hx
+      obtain ⟨y, ys, hy⟩ := List.exists_cons_of_ne_nil (splitOn_ne_nil c xs)
+      simp only [List.cons_append, splitOn, hx', Bool.false_eq_true, if_false, ih, hy]
+
+/-- **`filepath.Join(root, sub, rel)` for an arbitrary non-empty root**: the stack of `Clean(root)` followed by exactly
+    `sub` and the components of `rel`. -/
+theorem pathJoin_anyroot (root : Bytes) (hne : root ≠ []) (sub : Bytes) (hsub : CleanComp sub)
+    (comps : List Bytes) (hc0 : comps ≠ []) (hc : ∀ c ∈ comps, CleanComp c) :
+    pathJoin [root, sub, joinWith cSlash comps]
+      = renderPath (isRooted root) (rootStack root ++ sub :: comps) := by
+  have hroot : root.isEmpty = false := by simpa [List.isEmpty_iff] using hne
+  obtain ⟨c0, cs, rfl⟩ := List.exists_cons_of_ne_nil hc0
+  have hall : ∀ c ∈ sub :: c0 :: cs, CleanComp c := by
+    intro c hcm
+    rcases List.mem_cons.mp hcm with rfl | h
+    · exact hsub
+    · exact hc c h
+  have hj : joinWith cSlash [root, sub, joinWith cSlash (c0 :: cs)] = root ++ cSlash :: joinWith cSlash (sub :: c0 :: cs) := by
+    simp [joinWith]
+  unfold pathJoin
+  simp only [List.dropWhile, hroot]
+  rw [hj]
+  have hne2 : (root ++ cSlash :: joinWith cSlash (sub :: c0 :: cs)).isEmpty = false := by
+    cases root with
+    | nil => exact absurd rfl hne
+    | cons x xs => rfl
+  have hhead : (root ++ cSlash :: joinWith cSlash (sub :: c0 :: cs)).head? = root.head? := by
+    cases root with
+    | nil => exact absurd rfl hne
+    | cons x xs => rfl
+  unfold clean
+  simp only [hne2, Bool.false_eq_true, if_false, hhead, splitOn_append_sep,
+    splitOn_joinWith cSlash (sub :: c0 :: cs) (by simp) (fun p hp => (hall p hp).2.2.2),
+    List.foldl_append, foldl_cleanStep_clean _ _ _ hall]
+  unfold renderPath rootStack isRooted
+  simp only [List.reverse_append, List.reverse_reverse]
+
+/-- **Legacy manifest path, any models directory**: refused, or the components of `Clean(models)` followed by exactly
+    `manifests/<host>/<ns>/<model>/<tag>`, each part safe. -/
+theorem manifest_path_confined_anyroot (root : Bytes) (hne : root ≠ []) (mp : ModelPath) :
+    mpManifestPath root mp = none ∨
+    (mpManifestPath root mp = some (renderPath (isRooted root)
+        (rootStack root ++ [sManifests, mp.registry, mp.ns, mp.repo, mp.tag])) ∧
+      clean root = renderPath (isRooted root) (rootStack root) ∧
+      ∀ c ∈ [mp.registry, mp.ns, mp.repo, mp.tag], SafeComp c) := by
+  cases hfq : isFQM mp.toName with
+  | false => left; simp [mpManifestPath, (filepath_shape mp.toName).1 hfq]
+  | true =>
+    right
+    obtain ⟨hfp, hsafe⟩ := (filepath_shape mp.toName).2 hfq
+    refine ⟨?_, clean_eq_render root hne, hsafe⟩
+    simp only [mpManifestPath, hfp]
+    exact congrArg some (pathJoin_anyroot root hne sManifests safe_manifests.toClean _ (by simp)
+      (fun c hc => (hsafe c hc).toClean))
+
+/-- **Legacy blob path, any models directory** (non-empty digest): refused, or the components of `Clean(models)` followed by
+    exactly `blobs/sha256-<64 hex>`. -/
+theorem blob_path_confined_anyroot (root : Bytes) (hne : root ≠ []) (d : Bytes) (hd : d ≠ []) :
+    getBlobsPath root d = none ∨
+    ∃ hex, hex.length = 64 ∧ (∀ c ∈ hex, isHexB c = true) ∧ SafeComp (sSha256 ++ cDash :: hex) ∧
+      getBlobsPath root d = some (renderPath (isRooted root) (rootStack root ++ [sBlobs, sSha256 ++ cDash :: hex])) := by
+  cases hm : matchDigestRe d with
+  | false =>
+    left
+    have : d.isEmpty = false := by simpa [List.isEmpty_iff] using hd
+    simp [getBlobsPath, hm, this]
+  | true =>
+    right
+    rcases blob_path_confined_legacy [[111]] (by simp) (by
+        intro c hc; simp only [List.mem_cons, List.not_mem_nil, or_false] at hc; subst hc
+        exact ⟨by decide, by decide, by decide, by decide⟩) d with h | ⟨h, _⟩ | ⟨hex, hlen, hhex, hsafe, h⟩
+    · have : d.isEmpty = false := by simpa [List.isEmpty_iff] using hd
+      simp [getBlobsPath, hm, this] at h
+    · exact absurd h hd
+    · refine ⟨hex, hlen, hhex, hsafe, ?_⟩
+      -- the file name is the same whatever the root: read it off the instance at root `/o`
+      have hemp : d.isEmpty = false := by simpa [List.isEmpty_iff] using hd
+      have hname : colonToDash d = sSha256 ++ cDash :: hex := by
+        obtain ⟨sep, hex', hs', hsep, hlen', hhex'⟩ := digest_re_shape _ hm
+        simp only [getBlobsPath, hm, hemp, Bool.not_false, Bool.not_true, Bool.and_false, Bool.false_eq_true, if_false,
+          Option.some.injEq] at h
+        have h2 := pathJoin_root [[111]] (by simp) (by
+          intro c hc; simp only [List.mem_cons, List.not_mem_nil, or_false] at hc; subst hc
+          exact ⟨by decide, by decide, by decide, by decide⟩) sBlobs safe_blobs [colonToDash d] (by simp) (by
+            intro c hc; simp only [List.mem_cons, List.not_mem_nil, or_false] at hc; subst hc
+            have hc2 : colonToDash (sSha256 ++ sep :: hex') = sSha256 ++ cDash :: hex' := by
+              have e1 : colonToDash sSha256 = sSha256 := by decide
+              have h1 : colonToDash (sSha256 ++ sep :: hex') = colonToDash sSha256 ++ (colonToDash [sep] ++ colonToDash hex') := by
+                simp [colonToDash]
+              rw [h1, colonToDash_hex hex' hhex', e1]
+              rcases hsep with rfl | rfl <;> rfl
+            rw [hs', hc2]; exact safe_blob_name hex' hhex')
+        simp only [joinWith] at h2
+        rw [h2] at h
+        have h3 : ([[111]] ++ [sBlobs, colonToDash d] : List Bytes) = [[111]] ++ [sBlobs, sSha256 ++ cDash :: hex] := by
+          have := congrArg (splitOn cSlash) h
+          rw [splitOn_absPath' _ (by simp) (by
+              intro c hc
+              simp only [List.cons_append, List.nil_append, List.mem_cons, List.not_mem_nil, or_false] at hc
+              rcases hc with rfl | rfl | rfl
+              · exact ⟨by decide, by decide, by decide, by decide⟩
+              · exact safe_blobs.toClean
+              · rw [hs']
+                have hc2 : colonToDash (sSha256 ++ sep :: hex') = sSha256 ++ cDash :: hex' := by
+                  have e1 : colonToDash sSha256 = sSha256 := by decide
+                  have h1 : colonToDash (sSha256 ++ sep :: hex') = colonToDash sSha256 ++ (colonToDash [sep] ++ colonToDash hex') := by
+                    simp [colonToDash]
+                  rw [h1, colonToDash_hex hex' hhex', e1]
+                  rcases hsep with rfl | rfl <;> rfl
+                rw [hc2]; exact (safe_blob_name hex' hhex').toClean),
+            splitOn_absPath' _ (by simp) (by
+              intro c hc
+              simp only [List.cons_append, List.nil_append, List.mem_cons, List.not_mem_nil, or_false] at hc
+              rcases hc with rfl | rfl | rfl
+              · exact ⟨by decide, by decide, by decide, by decide⟩
+              · exact safe_blobs.toClean
+              · exact hsafe.toClean)] at this
+          simpa using this
+        simpa using h3
+      simp only [getBlobsPath, hm, hemp, Bool.not_false, Bool.not_true, Bool.and_false, Bool.false_eq_true, if_false, hname]
+      have := pathJoin_anyroot root hne sBlobs safe_blobs.toClean [sSha256 ++ cDash :: hex] (by simp)
+        (by intro c hc; simp only [List.mem_cons, List.not_mem_nil, or_false] at hc; subst hc; exact hsafe.toClean)
+      simp only [joinWith] at this
+      rw [this]
+
+/-- non-vacuity: a relative models directory with `..`, a doubled and a trailing slash (`./x/../m//`): `Clean` gives `m`,
+    the manifest of `m` and a blob are `m/manifests/registry.ollama.ai/library/m/latest` and `m/blobs/sha256-aa…` -/
+example :
+    let root : Bytes := [46, 47, 120, 47, 46, 46, 47, 109, 47, 47]
+    root ≠ [] ∧ rootStack root = [[109]] ∧ isRooted root = false ∧ clean root = [109] ∧
+    mpManifestPath root (parseModelPath [109]) = some (joinWith cSlash [[109], sManifests, sDefaultHost, sLibrary, [109], sLatest]) ∧
+    getBlobsPath root (sSha256 ++ cColon :: List.replicate 64 97)
+      = some (joinWith cSlash [[109], sBlobs, sSha256 ++ cDash :: List.replicate 64 97]) := by
+  decide
+
+/-- a root that climbs (`../s`): the `..` stays the ROOT's first component; the name parts come after it -/
+example : rootStack [46, 46, 47, 115] = [[46, 46], [115]] ∧
+    mpManifestPath [46, 46, 47, 115] (parseModelPath [109])
+      = some (joinWith cSlash [[46, 46], [115], sManifests, sDefaultHost, sLibrary, [109], sLatest]) := by decide
+
 end OllamaVerif.C13
